@@ -101,7 +101,9 @@ def extract(config, repo=None, quiet=True):
         return os.path.exists(marker) and all(os.path.exists(os.path.join(out, c + ".json")) for c in expected)
     if complete():
         return out
-    tgt = os.path.join(CACHE, "target", "nodebug" if "nodebug" in config else "dbg")
+    # VERIF_TARGET_DIR: a private cargo target directory (used by the parallel self-test workers; facts stay shared,
+    # they are keyed by the hash of the analysed tree)
+    tgt = os.path.join(os.environ.get("VERIF_TARGET_DIR") or os.path.join(CACHE, "target"), "nodebug" if "nodebug" in config else "dbg")
     os.makedirs(tgt, exist_ok=True)
     # the cargo target directory is shared by every check process: extractions are serialised with an exclusive
     # file lock (checks of several properties may run concurrently and must not disturb each other's build)
